@@ -13,7 +13,15 @@ package main
 //  stream 2 "graph": generated module trees (shared variable names, transitive, repeated,
 //    failing and cyclic imports, imports inside try() and inside spawned clones) evaluated
 //    on one VM with a host tick(location) builtin; body executions, files opened, outcome
-//    and the complete reachable module state are compared with the model's `run`.
+//    and the complete reachable module state (module identities AND the identity of each
+//    module's compiled code object) are compared with the model's `run`.  A quarter of the
+//    programs are "twin" trees: several module paths with byte-identical source (copies of a
+//    template) imported in one evaluation with state mutated between/after the imports; those
+//    and every other plain program are also judged against a reference semantics written
+//    directly from the property (every module path has its own variables, its body runs once
+//    at its first import).  The importers alone are asked for sequences of names and the
+//    pointer identities of the *compiler.Code they return are compared with the model's
+//    importer (`codes`: distinct paths => distinct code objects, same path => same object).
 
 import (
 	"context"
@@ -617,7 +625,7 @@ func c14Eval(src string, opts ...risor.Option) (res object.Object, err error) {
 // stream 2: module graphs
 
 type c14Stmt struct {
-	Kind    string // imp from set via try spawn fail
+	Kind    string // imp from set via add newlist push try spawn fail
 	Name    string // module name (imp/try/spawn) or parent (from)
 	Alias   string
 	Var     string
@@ -630,15 +638,34 @@ type c14Stmt struct {
 type c14File struct {
 	Name, Ext string
 	Body      []c14Stmt
+	Twin      string // template label: files with the same label have byte-identical source ("" = unique source)
+}
+
+// what the file's body passes to tick(): its location, or the template label for twins
+// (the source text of twins must not mention their own location)
+func (f *c14File) loc() string {
+	if f.Twin != "" {
+		return "root/@" + f.Twin
+	}
+	return "root/" + f.Name + f.Ext
 }
 
 type c14Prog struct {
 	Files  []c14File
 	Main   []c14Stmt
 	Failed map[string]bool // modules whose body did not complete in this run (from the model's reply)
+	Kind   string          // directed | random | twins
 }
 
 var c14Vars = []string{"x", "y"}
+
+// the counter every module has: only ever initialised (`n := v`) and bumped through the
+// module's own function add_n (never rebound by an import, so it always holds an integer)
+const c14Counter = "n"
+
+// the list every module has: created once (`l := []`) and appended to through the module's own
+// function push_l (never rebound by an import: the module's global is the only reference to it)
+const c14List = "l"
 var c14AliasPool = []string{"p", "q", "r"}
 
 func c14Last(name string) string {
@@ -660,6 +687,12 @@ func (s c14Stmt) wire() string {
 		return "s:" + Hex(s.Var) + ":" + strconv.Itoa(s.Val)
 	case "via":
 		return "v:" + Hex(s.Alias) + ":" + Hex(s.Var) + ":" + strconv.Itoa(s.Val)
+	case "add":
+		return "a:" + Hex(s.Alias) + ":" + Hex(s.Var) + ":" + strconv.Itoa(s.Val)
+	case "newlist":
+		return "l:" + Hex(s.Var)
+	case "push":
+		return "u:" + Hex(s.Alias) + ":" + Hex(s.Var) + ":" + strconv.Itoa(s.Val)
 	case "try":
 		return "t:" + Hex(s.Name)
 	case "spawn":
@@ -727,6 +760,13 @@ func c14Render(loc string, body []c14Stmt) string {
 			}
 		case "via":
 			b.WriteString(fmt.Sprintf("%s.set_%s(%d)", s.Alias, s.Var, s.Val))
+		case "add":
+			b.WriteString(fmt.Sprintf("%s.add_%s(%d)", s.Alias, s.Var, s.Val))
+		case "newlist":
+			b.WriteString(s.Var + " := []")
+			declared[s.Var] = true
+		case "push":
+			b.WriteString(fmt.Sprintf("%s.push_%s(%d)", s.Alias, s.Var, s.Val))
 		case "try":
 			b.WriteString("try(func() { import " + c14ImportText(s.Name, s.Quoted) + " }, 0)")
 		case "spawn":
@@ -741,6 +781,12 @@ func c14Render(loc string, body []c14Stmt) string {
 			if declared[v] {
 				b.WriteString(fmt.Sprintf("func set_%s(v) { %s = v }\n", v, v))
 			}
+		}
+		if declared[c14Counter] {
+			b.WriteString(fmt.Sprintf("func add_%s(v) { %s = %s + v }\n", c14Counter, c14Counter, c14Counter))
+		}
+		if declared[c14List] {
+			b.WriteString(fmt.Sprintf("func push_%s(v) { %s.append(v) }\n", c14List, c14List))
 		}
 	}
 	b.WriteString("end_marker := 0\n")
@@ -776,7 +822,9 @@ func c14Declared(body []c14Stmt) []string {
 	for _, s := range body {
 		switch s.Kind {
 		case "set":
-			set[s.Var] = true
+			if s.Var != c14Counter { // the counter is never offered to from-imports
+				set[s.Var] = true
+			}
 		case "imp":
 			set[s.Alias] = true
 		case "from":
@@ -800,6 +848,9 @@ func (g *c14Gen) body(mods []string, self int, isMain bool, canFail bool, done m
 	var out []c14Stmt
 	for _, v := range c14Vars {
 		out = append(out, c14Stmt{Kind: "set", Var: v, Val: g.val()})
+	}
+	if !isMain {
+		out = append(out, c14Stmt{Kind: "set", Var: c14Counter, Val: g.val()}, c14Stmt{Kind: "newlist", Var: c14List})
 	}
 	n := r.Intn(4)
 	if isMain {
@@ -889,6 +940,10 @@ func (g *c14Gen) body(mods []string, self int, isMain bool, canFail bool, done m
 		case k < 86:
 			if len(aliases) == 0 {
 				out = append(out, c14Stmt{Kind: "set", Var: Pick(r, c14Vars), Val: g.val()})
+			} else if r.Chance(30) {
+				out = append(out, c14Stmt{Kind: "add", Alias: Pick(r, aliases), Var: c14Counter, Val: 1 + r.Intn(9)})
+			} else if r.Chance(25) {
+				out = append(out, c14Stmt{Kind: "push", Alias: Pick(r, aliases), Var: c14List, Val: g.val()})
 			} else {
 				out = append(out, c14Stmt{Kind: "via", Alias: Pick(r, aliases), Var: Pick(r, c14Vars), Val: g.val()})
 			}
@@ -937,6 +992,170 @@ func (g *c14Gen) prog() c14Prog {
 		}
 	}
 	p.Main = g.body(mods, -1, true, r.Chance(2), done)
+	p.Kind = "random"
+	// now and then one module of a random tree is a byte-identical copy of a later one
+	if len(mods) >= 2 && r.Chance(12) {
+		j := 1 + r.Intn(len(mods)-1)
+		i := r.Intn(j)
+		src := p.fileOf(mods[j])
+		if dst := p.fileOf(mods[i]); src != nil && dst != nil && src != dst {
+			src.Twin = "T0"
+			dst.Twin = "T0"
+			dst.Body = append([]c14Stmt{}, src.Body...)
+		}
+	}
+	c14Sanitize(&p)
+	return p
+}
+
+// ---- twin trees: several module paths whose files are byte-identical copies of a template
+
+var c14TwinGroups = [][]string{{"a", "d/a", "e/a"}, {"c", "d/c", "e/c", "w/c"}, {"b", "w/b", "e/b"}}
+var c14TwinAliases = []string{"p", "q", "r", "s", "t", "u"}
+
+func (g *c14Gen) progTwins() c14Prog {
+	r := g.rng
+	var p c14Prog
+	p.Kind = "twins"
+	// helpers: ordinary modules (unique source) the templates may import
+	var helpers []string
+	for _, h := range []string{"h", "g"} {
+		if r.Chance(40) {
+			helpers = append(helpers, h)
+			p.Files = append(p.Files, c14File{Name: h, Ext: c14Exts[0], Body: []c14Stmt{
+				{Kind: "set", Var: "x", Val: g.val()}, {Kind: "set", Var: "y", Val: g.val()}, {Kind: "set", Var: c14Counter, Val: g.val()}, {Kind: "newlist", Var: c14List}}})
+		}
+	}
+	// templates
+	groups := append([][]string{}, c14TwinGroups...)
+	for i := len(groups) - 1; i > 0; i-- {
+		j := r.Intn(i + 1)
+		groups[i], groups[j] = groups[j], groups[i]
+	}
+	nt := 1
+	if r.Chance(30) {
+		nt = 2
+	}
+	var twins []string // all twin module paths
+	for t := 0; t < nt; t++ {
+		names := append([]string{}, groups[t]...)
+		if r.Chance(25) { // copies with different last components too
+			names = append(names, groups[2][r.Intn(len(groups[2]))])
+		}
+		for i := len(names) - 1; i > 0; i-- {
+			j := r.Intn(i + 1)
+			names[i], names[j] = names[j], names[i]
+		}
+		k := 2
+		if r.Chance(35) && len(names) >= 3 {
+			k = 3
+		}
+		names = names[:k]
+		body := []c14Stmt{{Kind: "set", Var: "x", Val: g.val()}, {Kind: "set", Var: "y", Val: g.val()}, {Kind: "set", Var: c14Counter, Val: r.Intn(3) * 10}, {Kind: "newlist", Var: c14List}}
+		if len(helpers) > 0 && r.Chance(50) { // the template uses a helper: every copy bumps the helper's counter / stores into it
+			h := Pick(r, helpers)
+			body = append(body, c14Stmt{Kind: "imp", Name: h, Alias: h, Quoted: r.Chance(30)})
+			switch k := r.Intn(10); {
+			case k < 4:
+				body = append(body, c14Stmt{Kind: "add", Alias: h, Var: c14Counter, Val: 1 + r.Intn(5)})
+			case k < 7:
+				body = append(body, c14Stmt{Kind: "push", Alias: h, Var: c14List, Val: g.val()})
+			default:
+				body = append(body, c14Stmt{Kind: "via", Alias: h, Var: Pick(r, c14Vars), Val: g.val()})
+			}
+		}
+		if r.Chance(30) {
+			body = append(body, c14Stmt{Kind: "set", Var: Pick(r, c14Vars), Val: g.val()})
+		}
+		ext := c14Exts[0]
+		if r.Chance(15) {
+			ext = c14Exts[1]
+		}
+		seen := map[string]bool{}
+		for _, nm := range names {
+			if seen[nm] {
+				continue
+			}
+			dup := false
+			for _, tw := range twins {
+				if tw == nm {
+					dup = true
+				}
+			}
+			if dup {
+				continue
+			}
+			seen[nm] = true
+			twins = append(twins, nm)
+			p.Files = append(p.Files, c14File{Name: nm, Ext: ext, Twin: fmt.Sprintf("T%d", t+1), Body: append([]c14Stmt{}, body...)})
+		}
+	}
+	// the script: imports every copy (any spelling, own alias), mutates state through the aliases
+	// between and after the imports, imports some copies again under another alias
+	main := []c14Stmt{{Kind: "set", Var: "x", Val: g.val()}, {Kind: "set", Var: "y", Val: g.val()}}
+	aliases := append([]string{}, c14TwinAliases...)
+	for i := len(aliases) - 1; i > 0; i-- {
+		j := r.Intn(i + 1)
+		aliases[i], aliases[j] = aliases[j], aliases[i]
+	}
+	var bound []string
+	nextAlias := func() string {
+		al := aliases[0]
+		aliases = append(aliases[1:], al)
+		return al
+	}
+	mutate := func(k int) {
+		for j := 0; j < k && len(bound) > 0; j++ {
+			al := Pick(r, bound)
+			switch r.Intn(4) {
+			case 0:
+				main = append(main, c14Stmt{Kind: "via", Alias: al, Var: Pick(r, c14Vars), Val: g.val()})
+			case 1:
+				main = append(main, c14Stmt{Kind: "push", Alias: al, Var: c14List, Val: g.val()})
+			default:
+				main = append(main, c14Stmt{Kind: "add", Alias: al, Var: c14Counter, Val: 1 + r.Intn(9)})
+			}
+		}
+	}
+	importOne := func(nm string) {
+		al := nextAlias()
+		if i := strings.LastIndexByte(nm, '/'); i > 0 && r.Chance(35) {
+			main = append(main, c14Stmt{Kind: "from", Name: nm[:i], Items: [][2]string{{nm[i+1:], al}}, Quoted: r.Chance(40), Grouped: r.Chance(20)})
+		} else {
+			main = append(main, c14Stmt{Kind: "imp", Name: nm, Alias: al, Quoted: r.Chance(40)})
+		}
+		bound = append(bound, al)
+	}
+	order := append([]string{}, twins...)
+	for i := len(order) - 1; i > 0; i-- {
+		j := r.Intn(i + 1)
+		order[i], order[j] = order[j], order[i]
+	}
+	for _, nm := range order {
+		importOne(nm)
+		mutate(r.Intn(3))
+	}
+	for _, h := range helpers {
+		if r.Chance(50) {
+			importOne(h)
+		}
+	}
+	mutate(1 + r.Intn(4))
+	if r.Chance(50) {
+		importOne(Pick(r, order)) // a second alias for a module that is loaded already
+		mutate(1 + r.Intn(3))
+	}
+	if r.Chance(12) { // outside the plain fragment: the general machinery on twin trees
+		switch r.Intn(3) {
+		case 0:
+			main = append(main, c14Stmt{Kind: "try", Name: Pick(r, order)})
+		case 1:
+			main = append([]c14Stmt{main[0], main[1], {Kind: "try", Name: Pick(r, order)}}, main[2:]...)
+		default:
+			main = append([]c14Stmt{main[0], main[1], {Kind: "spawn", Name: Pick(r, order)}}, main[2:]...)
+		}
+	}
+	p.Main = main
 	c14Sanitize(&p)
 	return p
 }
@@ -1011,6 +1230,10 @@ type c14GoOut struct {
 	opens []string
 	dump  []string
 	mods  map[string][]string // module name -> canonical ids observed
+	// canonical code identity -> name of the first module object seen with that *compiler.Code;
+	// pairs of different module names whose objects carry the same *compiler.Code
+	codeOf     map[int]string
+	sharedCode []string
 }
 
 func c14Keys(p *c14Prog) []string {
@@ -1032,8 +1255,25 @@ func c14Keys(p *c14Prog) []string {
 	for _, f := range p.Files {
 		addBody(f.Body)
 	}
+	set[c14Counter] = true
+	set[c14List] = true
 	keys := sortedKeys(set)
 	return keys
+}
+
+// the module tree on disk: dir/root/<name><ext>, with sentinel modules OUTSIDE the root
+func c14WriteTree(p *c14Prog, dir string) string {
+	root := filepath.Join(dir, "root")
+	os.RemoveAll(dir)
+	os.MkdirAll(root, 0o755)
+	os.WriteFile(filepath.Join(dir, "a.risor"), []byte("tick(\"OUTSIDE/a.risor\")\n"), 0o644)
+	os.WriteFile(filepath.Join(dir, "d.risor"), []byte("tick(\"OUTSIDE/d.risor\")\n"), 0o644)
+	for _, f := range p.Files {
+		fp := filepath.Join(root, f.Name+f.Ext)
+		os.MkdirAll(filepath.Dir(fp), 0o755)
+		os.WriteFile(fp, []byte(c14Render(f.loc(), f.Body)), 0o644)
+	}
+	return root
 }
 
 func c14RunGo(p *c14Prog, keys []string, local bool, dir string) (out c14GoOut) {
@@ -1041,21 +1281,12 @@ func c14RunGo(p *c14Prog, keys []string, local bool, dir string) (out c14GoOut) 
 	opts := []risor.Option{risor.WithGlobal("tick", tk.builtin()), risor.WithConcurrency()}
 	var rfs *c14_recFSys
 	if local {
-		root := filepath.Join(dir, "root")
-		os.RemoveAll(dir)
-		os.MkdirAll(root, 0o755)
-		os.WriteFile(filepath.Join(dir, "a.risor"), []byte("tick(\"OUTSIDE/a.risor\")\n"), 0o644)
-		os.WriteFile(filepath.Join(dir, "d.risor"), []byte("tick(\"OUTSIDE/d.risor\")\n"), 0o644)
-		for _, f := range p.Files {
-			fp := filepath.Join(root, f.Name+f.Ext)
-			os.MkdirAll(filepath.Dir(fp), 0o755)
-			os.WriteFile(fp, []byte(c14Render("root/"+f.Name+f.Ext, f.Body)), 0o644)
-		}
+		root := c14WriteTree(p, dir)
 		opts = append(opts, risor.WithLocalImporter(root))
 	} else {
 		m := fstest.MapFS{}
 		for _, f := range p.Files {
-			m[f.Name+f.Ext] = &fstest.MapFile{Data: []byte(c14Render("root/"+f.Name+f.Ext, f.Body))}
+			m[f.Name+f.Ext] = &fstest.MapFile{Data: []byte(c14Render(f.loc(), f.Body))}
 		}
 		rfs = &c14_recFSys{inner: m}
 		names := risor.NewConfig(opts...).GlobalNames()
@@ -1103,6 +1334,7 @@ func c14RunGo(p *c14Prog, keys []string, local bool, dir string) (out c14GoOut) 
 		out.opens = rfs.opens
 	}
 	out.mods = map[string][]string{}
+	out.codeOf = map[int]string{}
 	if machine != nil {
 		func() {
 			defer func() {
@@ -1111,6 +1343,7 @@ func c14RunGo(p *c14Prog, keys []string, local bool, dir string) (out c14GoOut) 
 				}
 			}()
 			canon := map[*object.Module]int{}
+			canonCode := map[*compiler.Code]int{}
 			var walk func(fuel int, pre string, get func(string) object.Object)
 			walk = func(fuel int, pre string, get func(string) object.Object) {
 				if fuel == 0 {
@@ -1127,6 +1360,16 @@ func c14RunGo(p *c14Prog, keys []string, local bool, dir string) (out c14GoOut) 
 						out.dump = append(out.dump, fmt.Sprintf("%s=i%d", path, x.Value()))
 					case *object.NilType:
 						out.dump = append(out.dump, path+"=n")
+					case *object.List:
+						items := make([]string, 0, len(x.Value()))
+						for _, it := range x.Value() {
+							if iv, ok := it.(*object.Int); ok {
+								items = append(items, strconv.FormatInt(iv.Value(), 10))
+							} else {
+								items = append(items, "?"+string(it.Type()))
+							}
+						}
+						out.dump = append(out.dump, path+"=l"+strings.Join(items, ";"))
 					case *object.Module:
 						id, ok := canon[x]
 						if !ok {
@@ -1134,7 +1377,17 @@ func c14RunGo(p *c14Prog, keys []string, local bool, dir string) (out c14GoOut) 
 							canon[x] = id
 						}
 						name := x.Name().Value()
-						out.dump = append(out.dump, fmt.Sprintf("%s=m%d:%s", path, id, name))
+						cid, ok := canonCode[x.Code()]
+						if !ok {
+							cid = len(canonCode)
+							canonCode[x.Code()] = cid
+						}
+						if old, ok := out.codeOf[cid]; ok && old != name {
+							out.sharedCode = append(out.sharedCode, fmt.Sprintf("%s and %s", old, name))
+						} else {
+							out.codeOf[cid] = name
+						}
+						out.dump = append(out.dump, fmt.Sprintf("%s=m%d:%s:c%d", path, id, name, cid))
 						ids := out.mods[name]
 						has := false
 						for _, s := range ids {
@@ -1175,6 +1428,7 @@ func c14ModelDump(field string) []string {
 		return nil
 	}
 	canon := map[string]int{}
+	canonCode := map[string]int{}
 	var out []string
 	for _, line := range strings.Split(field, ",") {
 		eq := strings.IndexByte(line, '=')
@@ -1188,13 +1442,24 @@ func c14ModelDump(field string) []string {
 		}
 		val := line[eq+1:]
 		if strings.HasPrefix(val, "m") {
-			colon := strings.IndexByte(val, ':')
-			id, ok := canon[val[1:colon]]
-			if !ok {
-				id = len(canon)
-				canon[val[1:colon]] = id
+			f := strings.Split(val, ":") // m<object> : <name hex> : c<code>
+			if len(f) == 3 {
+				id, ok := canon[f[0]]
+				if !ok {
+					id = len(canon)
+					canon[f[0]] = id
+				}
+				cid, ok := canonCode[f[2]]
+				if !ok {
+					cid = len(canonCode)
+					canonCode[f[2]] = cid
+				}
+				name := UnHex(f[1])
+				if f[1] == "~" {
+					name = ""
+				}
+				val = fmt.Sprintf("m%d:%s:c%d", id, name, cid)
 			}
-			val = fmt.Sprintf("m%d:%s", id, UnHex(val[colon+1:]))
 		}
 		out = append(out, strings.Join(parts, ".")+"="+val)
 	}
@@ -1267,7 +1532,7 @@ func (p *c14Prog) text() string {
 	var b strings.Builder
 	b.WriteString("main:\n" + c14Render("", p.Main))
 	for _, f := range p.Files {
-		b.WriteString("--- root/" + f.Name + f.Ext + ":\n" + c14Render("root/"+f.Name+f.Ext, f.Body))
+		b.WriteString("--- root/" + f.Name + f.Ext + ":\n" + c14Render(f.loc(), f.Body))
 	}
 	return b.String()
 }
@@ -1283,6 +1548,29 @@ func (p *c14Prog) fileOf(name string) *c14File {
 		}
 	}
 	return nil
+}
+
+// what a body execution of module `name` shows up as in the tick log: the module name, or
+// "@<label>" for a copy of a template (its source cannot mention its own location)
+func (p *c14Prog) tickName(name string) string {
+	if f := p.fileOf(name); f != nil && f.Twin != "" {
+		return "@" + f.Twin
+	}
+	return name
+}
+
+// how many module paths share this tick name (1 unless it is a template label)
+func (p *c14Prog) tickShare(tick string) int {
+	if !strings.HasPrefix(tick, "@") {
+		return 1
+	}
+	names := map[string]bool{}
+	for _, f := range p.Files {
+		if f.Twin == tick[1:] {
+			names[f.Name] = true
+		}
+	}
+	return len(names)
 }
 
 // Go's alias map of one from-import statement: the alias actually bound for item i
@@ -1390,10 +1678,16 @@ func c14Graph(e *Env) {
 	}
 	defer os.RemoveAll(tmp)
 	g := &c14Gen{rng: e.Rng.Fork()}
-	progs := make([]c14Prog, 0, n+len(c14DirectedProgs()))
-	progs = append(progs, c14DirectedProgs()...)
+	irng := e.Rng.Fork()
+	directed := c14DirectedProgs()
+	progs := make([]c14Prog, 0, n+len(directed))
+	progs = append(progs, directed...)
 	for i := 0; i < n; i++ {
-		progs = append(progs, g.prog())
+		if i%4 == 1 {
+			progs = append(progs, g.progTwins())
+		} else {
+			progs = append(progs, g.prog())
+		}
 	}
 	reqs := make([]string, len(progs))
 	keysOf := make([][]string, len(progs))
@@ -1403,16 +1697,269 @@ func c14Graph(e *Env) {
 	}
 	reps := e.O.AskBatch(reqs)
 	for i := range progs {
-		local := i%4 == 0 || i < len(c14DirectedProgs())
-		c14GraphCase(e, &progs[i], keysOf[i], reps[i], filepath.Join(tmp, "t"), local)
+		local := i%4 == 0 || i < len(directed) || progs[i].hasTwins()
+		c14GraphCase(e, &progs[i], keysOf[i], reps[i], filepath.Join(tmp, "t"), local, irng)
 	}
 }
 
-func c14GraphCase(e *Env, p *c14Prog, keys []string, rep string, dir string, alsoLocal bool) {
+func (p *c14Prog) hasTwins() bool {
+	for _, f := range p.Files {
+		if f.Twin != "" {
+			return true
+		}
+	}
+	return false
+}
+
+// ---- reference semantics (Spec), written from the property's text and from nothing else:
+// every module PATH has its own variables; a module's body runs once, when the module is
+// first imported; every import of the path yields that one module.  Defined on the plain
+// fragment only (import, single-name from-import of a sub-module, stores, stores and counter
+// bumps through a module's own functions; no failing, cyclic, try- or spawned imports, so
+// none of the recorded findings is in reach); ok=false outside it.
+
+type c14RefMod struct {
+	name string
+	g    map[string]c14RefVal
+}
+type c14RefVal struct {
+	kind byte // 'i' 'm' 'l'
+	i    int
+	m    *c14RefMod
+	l    []int
+}
+
+func c14RefEval(p *c14Prog, keys []string) (ticks, dump []string, ok bool) {
+	mods := map[string]*c14RefMod{}
+	loading := map[string]bool{}
+	var exec func(g map[string]c14RefVal, body []c14Stmt) bool
+	var imp func(name string) (*c14RefMod, bool)
+	imp = func(name string) (*c14RefMod, bool) {
+		if m, ok := mods[name]; ok {
+			return m, true
+		}
+		f := p.fileOf(name)
+		if f == nil || loading[name] {
+			return nil, false
+		}
+		loading[name] = true
+		ticks = append(ticks, p.tickName(name))
+		m := &c14RefMod{name: name, g: map[string]c14RefVal{}}
+		if !exec(m.g, f.Body) {
+			return nil, false
+		}
+		delete(loading, name)
+		mods[name] = m
+		return m, true
+	}
+	exec = func(g map[string]c14RefVal, body []c14Stmt) bool {
+		for _, s := range body {
+			switch s.Kind {
+			case "imp":
+				m, ok := imp(s.Name)
+				if !ok {
+					return false
+				}
+				g[s.Alias] = c14RefVal{kind: 'm', m: m}
+			case "from":
+				if len(s.Items) != 1 || p.fileOf(s.Name+"/"+s.Items[0][0]) == nil {
+					return false
+				}
+				m, ok := imp(s.Name + "/" + s.Items[0][0])
+				if !ok {
+					return false
+				}
+				g[s.Items[0][1]] = c14RefVal{kind: 'm', m: m}
+			case "set":
+				g[s.Var] = c14RefVal{kind: 'i', i: s.Val}
+			case "newlist":
+				g[s.Var] = c14RefVal{kind: 'l'}
+			case "via", "add", "push":
+				t, ok := g[s.Alias]
+				if !ok || t.kind != 'm' || loading[t.m.name] {
+					return false
+				}
+				old, ok := t.m.g[s.Var]
+				if !ok || (s.Kind == "push") != (old.kind == 'l') || (s.Kind != "push" && old.kind != 'i') {
+					return false
+				}
+				switch s.Kind {
+				case "via":
+					t.m.g[s.Var] = c14RefVal{kind: 'i', i: s.Val}
+				case "add":
+					t.m.g[s.Var] = c14RefVal{kind: 'i', i: old.i + s.Val}
+				default:
+					t.m.g[s.Var] = c14RefVal{kind: 'l', l: append(append([]int{}, old.l...), s.Val)}
+				}
+			default:
+				return false
+			}
+		}
+		return true
+	}
+	main := map[string]c14RefVal{}
+	if !exec(main, p.Main) {
+		return nil, nil, false
+	}
+	canon := map[*c14RefMod]int{}
+	var walk func(fuel int, pre string, g map[string]c14RefVal)
+	walk = func(fuel int, pre string, g map[string]c14RefVal) {
+		if fuel == 0 {
+			return
+		}
+		for _, k := range keys {
+			v, has := g[k]
+			if !has {
+				continue
+			}
+			path := pre + "." + k
+			if v.kind == 'i' {
+				dump = append(dump, fmt.Sprintf("%s=i%d", path, v.i))
+				continue
+			}
+			if v.kind == 'l' {
+				items := make([]string, len(v.l))
+				for i, x := range v.l {
+					items[i] = strconv.Itoa(x)
+				}
+				dump = append(dump, path+"=l"+strings.Join(items, ";"))
+				continue
+			}
+			id, seen := canon[v.m]
+			if !seen {
+				id = len(canon)
+				canon[v.m] = id
+			}
+			// one module object and one code object per module path: both numbered by first visit
+			dump = append(dump, fmt.Sprintf("%s=m%d:%s:c%d", path, id, v.m.name, id))
+			walk(fuel-1, path, v.m.g)
+		}
+	}
+	walk(5, "main", main)
+	return ticks, dump, true
+}
+
+func c14FirstDiff(got, want []string) string {
+	for i := 0; i < len(got) || i < len(want); i++ {
+		g, w := "<nothing>", "<nothing>"
+		if i < len(got) {
+			g = got[i]
+		}
+		if i < len(want) {
+			w = want[i]
+		}
+		if g != w {
+			return fmt.Sprintf("observed %s, expected %s", g, w)
+		}
+	}
+	return "no difference"
+}
+
+// ---- the importers alone: identity of the code objects they hand out
+
+func c14ImporterCodes(e *Env, p *c14Prog, text, dir string, rng *RNG) {
+	set := map[string]bool{"nope": true}
+	for _, f := range p.Files {
+		set[f.Name] = true
+	}
+	names := sortedKeys(set)
+	seq := append([]string{}, names...)
+	for i := len(seq) - 1; i > 0; i-- {
+		j := rng.Intn(i + 1)
+		seq[i], seq[j] = seq[j], seq[i]
+	}
+	for k := rng.Intn(4); k > 0; k-- {
+		seq = append(seq, Pick(rng, names))
+	}
+	hx := make([]string, len(seq))
+	for i, n := range seq {
+		hx[i] = Hex(n)
+	}
+	req := strings.Split(c14Request(p, nil), "\t") // C14 run fuel limit root exts keys files main
+	rep := strings.Split(e.O.Ask("C14", "codes", req[4], req[5], req[7], strings.Join(hx, ",")), "\t")
+	if len(rep) != 3 {
+		e.R.Mismatch(text, "-", strings.Join(rep, " "), "oracle reply malformed (codes)")
+		return
+	}
+	canonList := func(ids []string) string {
+		canon := map[string]int{}
+		out := make([]string, len(ids))
+		for i, id := range ids {
+			if id == "-" {
+				out[i] = seq[i] + "=-"
+				continue
+			}
+			c, ok := canon[id]
+			if !ok {
+				c = len(canon)
+				canon[id] = c
+			}
+			out[i] = fmt.Sprintf("%s=c%d", seq[i], c)
+		}
+		return strings.Join(out, " ")
+	}
+	model := canonList(strings.Split(rep[0], ","))
+	if rep[1] != "true" {
+		e.R.Mismatch(text, "-", model, "the importer model gave one code object to two module paths (contradicts importer_distinct_paths_distinct_code)")
+	}
+	tk := &c14Ticks{}
+	gnames := risor.NewConfig(risor.WithGlobal("tick", tk.builtin()), risor.WithConcurrency()).GlobalNames()
+	mfs := fstest.MapFS{}
+	for _, f := range p.Files {
+		mfs[f.Name+f.Ext] = &fstest.MapFile{Data: []byte(c14Render(f.loc(), f.Body))}
+	}
+	c14WriteTree(p, dir)
+	imps := []struct {
+		which string
+		imp   importer.Importer
+	}{
+		{"LocalImporter", importer.NewLocalImporter(importer.LocalImporterOptions{GlobalNames: gnames, SourceDir: filepath.Join(dir, "root"), Extensions: c14Exts})},
+		{"FSImporter", importer.NewFSImporter(importer.FSImporterOptions{GlobalNames: gnames, SourceFS: mfs, Extensions: c14Exts})},
+	}
+	for _, im := range imps {
+		ptrs := map[*compiler.Code]int{}
+		byName := map[string]*compiler.Code{}
+		ids := make([]string, len(seq))
+		for i, n := range seq {
+			var code *compiler.Code
+			func() {
+				defer func() { recover() }()
+				m, err := im.imp.Import(context.Background(), n)
+				if err == nil && m != nil {
+					code = m.Code()
+				}
+			}()
+			if code == nil {
+				ids[i] = "-"
+				continue
+			}
+			if prev, ok := byName[n]; ok && prev != code {
+				e.R.Mismatch(text, im.which+": Import("+n+") returned a different *compiler.Code the second time", "the by-name code cache returns the same code object", "importer code cache vs C14.noteCompiled")
+			}
+			byName[n] = code
+			if _, ok := ptrs[code]; !ok {
+				ptrs[code] = len(ptrs)
+			}
+			ids[i] = strconv.Itoa(ptrs[code])
+		}
+		// every name shows its FINAL code object, as the model's cache lookup does
+		for i, n := range seq {
+			if c, ok := byName[n]; ok {
+				ids[i] = strconv.Itoa(ptrs[c])
+			}
+		}
+		if got := canonList(ids); got != model {
+			e.R.Mismatch(text, im.which+": "+got, model, "pointer identity of the *compiler.Code the importer returns per module path vs C14.importSeq (importer_distinct_paths_distinct_code: distinct paths => distinct code objects; hypothesis of module_globals_disjoint)")
+		}
+		e.R.H("importer_identity_sequences", im.which)
+	}
+}
+
+func c14GraphCase(e *Env, p *c14Prog, keys []string, rep string, dir string, alsoLocal bool, irng *RNG) {
 	text := strings.ReplaceAll(strings.TrimSpace(p.text()), "\n", " ¦ ")
 	imports, transitive := 0, false
 	for _, s := range p.Main {
-		if s.Kind != "set" && s.Kind != "via" && s.Kind != "fail" {
+		if s.Kind != "set" && s.Kind != "via" && s.Kind != "add" && s.Kind != "push" && s.Kind != "newlist" && s.Kind != "fail" {
 			imports++
 		}
 	}
@@ -1428,15 +1975,29 @@ func c14GraphCase(e *Env, p *c14Prog, keys []string, rep string, dir string, als
 		e.R.H("graph_main_stmt", s.Kind)
 	}
 	e.R.H("graph_modules", strconv.Itoa(len(p.Files)))
+	e.R.H("graph_kind", p.Kind)
+	twinPaths := map[string]bool{}
+	for _, f := range p.Files {
+		if f.Twin != "" {
+			twinPaths[f.Name] = true
+		}
+	}
+	if len(twinPaths) > 0 {
+		e.R.H("graph_identical_source_paths", strconv.Itoa(len(twinPaths)))
+	}
 
 	f := strings.Split(rep, "\t")
-	if len(f) != 13 {
+	if len(f) != 15 {
 		e.R.Mismatch(text, "-", rep, "oracle reply malformed")
 		return
 	}
-	mOut, mTicks, mOpens, mFailed, mReent := f[0], c14Csv(f[1]), c14Csv(f[2]), c14Csv(f[3]), c14Csv(f[4])
+	mOut, mTicksRaw, mOpens, mFailed, mReent := f[0], c14Csv(f[1]), c14Csv(f[2]), c14Csv(f[3]), c14Csv(f[4])
 	mSpawns, mMisbinds, mNofuel := f[5], f[6], f[7]
 	mDump := c14ModelDump(f[8])
+	mTicks := make([]string, len(mTicksRaw))
+	for i, t := range mTicksRaw {
+		mTicks[i] = p.tickName(t)
+	}
 	p.Failed = map[string]bool{}
 	for _, n := range mFailed {
 		p.Failed[n] = true
@@ -1445,13 +2006,18 @@ func c14GraphCase(e *Env, p *c14Prog, keys []string, rep string, dir string, als
 	if f[12] != "-" {
 		for _, rc := range strings.Split(f[12], ",") {
 			i := strings.LastIndexByte(rc, ':')
-			causes[UnHex(rc[:i])] = rc[i+1:]
+			nm := UnHex(rc[:i])
+			causes[nm] = rc[i+1:]
+			causes[p.tickName(nm)] = rc[i+1:]
 		}
 	}
 	if mNofuel == "true" {
 		e.R.H("graph_outcome", "model-out-of-fuel")
 		e.R.Note("model ran out of fuel on a generated program (skipped)")
 		return
+	}
+	if f[13] != "true" {
+		e.R.Mismatch(text, "-", f[14], "the model's importer gave one code object to two module paths (contradicts importer_distinct_paths_distinct_code_run)")
 	}
 
 	goFS := c14RunGo(p, keys, false, "")
@@ -1472,45 +2038,67 @@ func c14GraphCase(e *Env, p *c14Prog, keys []string, rep string, dir string, als
 		mis(goFS.class, mOut, "generated program does not parse/compile")
 		return
 	}
-	if goFS.class != mOut {
-		mis(fmt.Sprintf("%s (%v)", goFS.class, goFS.err), mOut, "evaluation outcome vs C14.run")
-	}
 	// A cyclic import ends in a Go panic when the frame array (model: Env.limit) or, earlier, the
 	// operand stack overflows; the model has no operand-stack limit, so on those runs the real
 	// logs must be a prefix of the model's (DESIGN section 2, "Go-level accidents").
-	same := func(goL, modelL []string) bool {
-		if mOut == "panic" && goFS.class == "panic" {
-			return len(goL) <= len(modelL) && strings.Join(goL, ",") == strings.Join(modelL[:len(goL)], ",")
-		}
-		return strings.Join(goL, ",") == strings.Join(modelL, ",")
-	}
 	if mOut == "panic" {
 		e.R.H("graph_feature", "frame-overflow-weak-comparison")
 	}
-	if !same(goFS.ticks, mTicks) {
-		mis(c14Short(goFS.ticks), c14Short(mTicks), "module body executions (tick log) vs C14.run ticks")
-	}
-	wantOpens := make([]string, len(goFS.opens))
-	for i, o := range goFS.opens {
-		wantOpens[i] = c14Root + "/" + o
-	}
-	if !same(wantOpens, mOpens) {
-		mis(c14Short(wantOpens), c14Short(mOpens), "files opened by the importer vs C14.run opens")
-	}
-	// after a Go panic the VM's registers are not those of the script's frame: no state comparison
-	if goFS.class != "panic" && strings.Join(goFS.dump, ",") != strings.Join(mDump, ",") {
-		mis(strings.Join(goFS.dump, ","), strings.Join(mDump, ","), "reachable module state (globals of script and modules, module identities) vs C14.run heap")
-	}
-	if alsoLocal {
-		goL := c14RunGo(p, keys, true, dir)
-		if goL.class != goFS.class || strings.Join(goL.locs, ",") != strings.Join(goFS.locs, ",") || strings.Join(goL.dump, ",") != strings.Join(goFS.dump, ",") {
-			mis(fmt.Sprintf("local: %s %v", goL.class, goL.locs), fmt.Sprintf("fs: %s %v", goFS.class, goFS.locs), "LocalImporter and FSImporter runs differ")
+	// real run (either importer) against the model's run
+	against := func(out c14GoOut, which string) {
+		same := func(goL, modelL []string) bool {
+			if mOut == "panic" && out.class == "panic" {
+				return len(goL) <= len(modelL) && strings.Join(goL, ",") == strings.Join(modelL[:len(goL)], ",")
+			}
+			return strings.Join(goL, ",") == strings.Join(modelL, ",")
 		}
-		for _, l := range goL.locs {
-			if !strings.HasPrefix(l, "root/") {
-				e.R.Spec(text, "LocalImporter ran code from outside the import root: "+l, "")
+		if out.class != mOut {
+			mis(fmt.Sprintf("%s: %s (%v)", which, out.class, out.err), mOut, "evaluation outcome vs C14.run")
+		}
+		if !same(out.ticks, mTicks) {
+			mis(which+": "+c14Short(out.ticks), c14Short(mTicks), "module body executions (tick log) vs C14.run ticks")
+		}
+		if out.opens != nil || which == "FSImporter" {
+			wantOpens := make([]string, len(out.opens))
+			for i, o := range out.opens {
+				wantOpens[i] = c14Root + "/" + o
+			}
+			if !same(wantOpens, mOpens) {
+				mis(which+": "+c14Short(wantOpens), c14Short(mOpens), "files opened by the importer vs C14.run opens")
 			}
 		}
+		// after a Go panic the VM's registers are not those of the script's frame: no state comparison
+		if out.class != "panic" && strings.Join(out.dump, ",") != strings.Join(mDump, ",") {
+			what := "reachable module state (globals of script and modules, module identities, identity of each module's code object) vs C14.run heap"
+			if len(twinPaths) > 0 {
+				// diagnosis only: does the real run look like an importer sharing code between equal texts?
+				sh := strings.Split(e.O.Ask(strings.Split(strings.Replace(c14Request(p, keys), "\trun\t", "\trunshared\t", 1), "\t")...), "\t")
+				if len(sh) == 15 && strings.Join(c14ModelDump(sh[8]), ",") == strings.Join(out.dump, ",") {
+					what += " — the real run equals the model of an importer that hands ONE code object to modules with equal source text (Env.reuse = shareByText; distinct_code_needed)"
+				}
+			}
+			mis(which+": "+strings.Join(out.dump, ","), strings.Join(mDump, ","), what)
+		}
+		if len(out.sharedCode) > 0 {
+			mis(which+": module objects of different paths carry the same *compiler.Code: "+strings.Join(out.sharedCode, "; "), "CodeInj: distinct module paths have distinct code objects",
+				"identity of the code objects of the reachable modules (hypothesis of module_globals_disjoint)")
+		}
+	}
+	against(goFS, "FSImporter")
+	var goL c14GoOut
+	if alsoLocal {
+		goL = c14RunGo(p, keys, true, dir)
+		if goL.class != goFS.class || strings.Join(goL.locs, ",") != strings.Join(goFS.locs, ",") || strings.Join(goL.dump, ",") != strings.Join(goFS.dump, ",") {
+			against(goL, "LocalImporter")
+			if agree { // differs from the FSImporter run in something the model does not see
+				mis(fmt.Sprintf("local: %s %v", goL.class, goL.locs), fmt.Sprintf("fs: %s %v", goFS.class, goFS.locs), "LocalImporter and FSImporter runs differ")
+			}
+		}
+		e.R.H("graph_importer_runs", "LocalImporter")
+	}
+	e.R.H("graph_importer_runs", "FSImporter")
+	if len(twinPaths) > 0 || irng.Chance(10) {
+		c14ImporterCodes(e, p, text, dir, irng)
 	}
 	if len(mFailed) > 0 {
 		e.R.H("graph_feature", "failed-import")
@@ -1526,13 +2114,16 @@ func c14GraphCase(e *Env, p *c14Prog, keys []string, rep string, dir string, als
 	}
 	if len(mFailed) == 0 && len(mReent) == 0 && mSpawns == "0" && mMisbinds == "0" {
 		e.R.H("graph_feature", "inside-all-guards")
+		if len(twinPaths) > 0 {
+			e.R.H("graph_feature", "identical-source-modules-inside-all-guards")
+		}
 	}
 	maxTick := 0
-	cnt := map[string]int{}
+	cnt0 := map[string]int{}
 	for _, t := range goFS.ticks {
-		cnt[t]++
-		if cnt[t] > maxTick {
-			maxTick = cnt[t]
+		cnt0[t]++
+		if over := cnt0[t] - p.tickShare(t) + 1; over > maxTick { // a template label stands for all its copies
+			maxTick = over
 		}
 	}
 	switch {
@@ -1542,138 +2133,171 @@ func c14GraphCase(e *Env, p *c14Prog, keys []string, rep string, dir string, als
 		e.R.H("graph_max_body_runs", strconv.Itoa(maxTick))
 	}
 
-	// ---- Spec on the real results
-	// S1 confinement
-	for _, l := range goFS.locs {
-		if !strings.HasPrefix(l, "root/") {
-			e.R.Spec(text, "code outside the import root ran: "+l, "")
+	refTicks, refDump, refOK := c14RefEval(p, keys)
+	if refOK {
+		e.R.H("graph_feature", "reference-semantics-applies")
+		if len(twinPaths) > 0 {
+			e.R.H("graph_feature", "reference-semantics-applies-identical-source")
 		}
 	}
-	for _, o := range goFS.opens {
-		if !fs.ValidPath(o) {
-			e.R.Spec(text, "importer opened an invalid path: "+o, "")
-		}
-	}
-	// S2 at most once
-	for _, name := range sortedKeys(cnt) {
-		if cnt[name] <= 1 {
-			continue
-		}
-		finding := ""
-		if agree {
-			switch causes[name] {
-			case "1":
-				finding = c14FindCycle
-			case "2":
-				finding = c14FindFail
-			case "3":
-				finding = c14FindClone
+
+	// ---- Spec on the real results (of either importer)
+	spec := func(out c14GoOut, which string) {
+		bad := func(detail, finding string) { e.R.Spec(text, "["+which+"] "+detail, finding) }
+		// S1 confinement
+		for _, l := range out.locs {
+			if !strings.HasPrefix(l, "root/") {
+				bad("code outside the import root ran: "+l, "")
 			}
 		}
-		e.R.Spec(text, fmt.Sprintf("top-level code of module %q ran %d times in one evaluation", name, cnt[name]), finding)
-	}
-	// S3a one module object per name among everything reachable
-	for _, name := range sortedKeys(goFS.mods) {
-		if len(goFS.mods[name]) > 1 {
-			finding := ""
-			if agree && causes[name] != "" {
-				finding = map[string]string{"1": c14FindCycle, "2": c14FindFail, "3": c14FindClone}[causes[name]]
+		for _, o := range out.opens {
+			if !fs.ValidPath(o) {
+				bad("importer opened an invalid path: "+o, "")
 			}
-			e.R.Spec(text, fmt.Sprintf("importers hold %d different module objects for %q", len(goFS.mods[name]), name), finding)
 		}
-	}
-	if goFS.class != "ok" {
-		return
-	}
-	// S3b each import binding holds the module it names; S4 values stay with their owner
-	got := map[string]string{}
-	for _, l := range goFS.dump {
-		eq := strings.IndexByte(l, '=')
-		got[l[:eq]] = l[eq+1:]
-	}
-	var check func(path, mod string, body []c14Stmt, depth int)
-	check = func(path, mod string, body []c14Stmt, depth int) {
-		if depth == 0 {
-			return
-		}
-		last := map[string]string{} // alias -> expected module name, "" = not judged
-		for _, s := range body {
-			switch s.Kind {
-			case "imp":
-				last[s.Alias] = s.Name
-			case "from":
-				seen := map[string]int{}
-				for _, it := range s.Items {
-					seen[it[0]]++
+		// S0 the reference semantics, where it is defined: exactly these bodies ran, in this order, and
+		// the reachable state is exactly this (every module path its own variables and its own counter)
+		if refOK {
+			if out.class != "ok" {
+				bad(fmt.Sprintf("the evaluation ended with %s (%v) although every import names an existing module and nothing fails", out.class, out.err), "")
+			} else {
+				if strings.Join(out.ticks, ",") != strings.Join(refTicks, ",") {
+					bad(fmt.Sprintf("module bodies ran as %v; each module's body must run once, at its first import: %v", out.ticks, refTicks), "")
 				}
-				for k, it := range s.Items {
-					if seen[it[0]] > 1 {
-						last[c14EffAlias(s.Items, k)] = ""
-						continue // the duplicate-name alias map defect is not judged here
-					}
-					last[it[1]] = ""
-					full := s.Name + "/" + it[0]
-					if p.fileOf(full) != nil {
-						failing := false // its body did not complete: from-import falls back to the parent's attribute
-						for _, fn := range mFailed {
-							if fn == full {
-								failing = true
-							}
-						}
-						if !failing {
-							last[it[1]] = full
-						}
-					}
+				if strings.Join(out.dump, ",") != strings.Join(refDump, ",") {
+					bad("state seen through the aliases differs from \"every module path has its own variables\": "+c14FirstDiff(out.dump, refDump), "")
 				}
-			case "set":
-				delete(last, s.Var)
 			}
 		}
-		for _, al := range sortedKeys(last) {
-			want := last[al]
-			if want == "" {
+		cnt := map[string]int{}
+		for _, t := range out.ticks {
+			cnt[t]++
+		}
+		// S2 at most once (a template label stands for as many modules as there are copies)
+		for _, name := range sortedKeys(cnt) {
+			if cnt[name] <= p.tickShare(name) {
 				continue
 			}
-			v, ok := got[path+"."+al]
-			if !ok {
-				continue // deeper than the walk
+			finding := ""
+			if agree {
+				switch causes[name] {
+				case "1":
+					finding = c14FindCycle
+				case "2":
+					finding = c14FindFail
+				case "3":
+					finding = c14FindClone
+				}
 			}
-			colon := strings.IndexByte(v, ':')
-			if !strings.HasPrefix(v, "m") || colon < 0 || v[colon+1:] != want {
+			bad(fmt.Sprintf("top-level code of module %q ran %d times in one evaluation", name, cnt[name]), finding)
+		}
+		// S3a one module object per name among everything reachable
+		for _, name := range sortedKeys(out.mods) {
+			if len(out.mods[name]) > 1 {
+				finding := ""
+				if agree && causes[name] != "" {
+					finding = map[string]string{"1": c14FindCycle, "2": c14FindFail, "3": c14FindClone}[causes[name]]
+				}
+				bad(fmt.Sprintf("importers hold %d different module objects for %q", len(out.mods[name]), name), finding)
+			}
+		}
+		if out.class != "ok" {
+			return
+		}
+		// S3b each import binding holds the module it names; S4 values stay with their owner
+		got := map[string]string{}
+		for _, l := range out.dump {
+			eq := strings.IndexByte(l, '=')
+			got[l[:eq]] = l[eq+1:]
+		}
+		var check func(path, mod string, body []c14Stmt, depth int)
+		check = func(path, mod string, body []c14Stmt, depth int) {
+			if depth == 0 {
+				return
+			}
+			last := map[string]string{} // alias -> expected module name, "" = not judged
+			for _, s := range body {
+				switch s.Kind {
+				case "imp":
+					last[s.Alias] = s.Name
+				case "from":
+					seen := map[string]int{}
+					for _, it := range s.Items {
+						seen[it[0]]++
+					}
+					for k, it := range s.Items {
+						if seen[it[0]] > 1 {
+							last[c14EffAlias(s.Items, k)] = ""
+							continue // the duplicate-name alias map defect is not judged here
+						}
+						last[it[1]] = ""
+						full := s.Name + "/" + it[0]
+						if p.fileOf(full) != nil {
+							failing := false // its body did not complete: from-import falls back to the parent's attribute
+							for _, fn := range mFailed {
+								if fn == full {
+									failing = true
+								}
+							}
+							if !failing {
+								last[it[1]] = full
+							}
+						}
+					}
+				case "set":
+					delete(last, s.Var)
+				}
+			}
+			for _, al := range sortedKeys(last) {
+				want := last[al]
+				if want == "" {
+					continue
+				}
+				v, ok := got[path+"."+al]
+				if !ok {
+					continue // deeper than the walk
+				}
+				vf := strings.Split(v, ":") // m<id>:<name>:c<code>
+				if !strings.HasPrefix(v, "m") || len(vf) != 3 || vf[1] != want {
+					finding := ""
+					if agree && mMisbinds != "0" {
+						finding = c14FindStack
+					}
+					bad(fmt.Sprintf("%s.%s was imported as module %q but holds %s", path, al, want, v), finding)
+				} else if f := p.fileOf(want); f != nil {
+					check(path+"."+al, want, f.Body, depth-1)
+				}
+			}
+			for _, vname := range c14Vars {
+				v, ok := got[path+"."+vname]
+				if !ok {
+					continue
+				}
+				vals, open := p.allowed(mod, vname, 3)
+				// when a from-import bound a stack residue (known finding) an alias may denote another
+				// module than the one it names, and stores through it land there
 				finding := ""
 				if agree && mMisbinds != "0" {
 					finding = c14FindStack
 				}
-				e.R.Spec(text, fmt.Sprintf("%s.%s was imported as module %q but holds %s", path, al, want, v), finding)
-			} else if f := p.fileOf(want); f != nil {
-				check(path+"."+al, want, f.Body, depth-1)
-			}
-		}
-		for _, vname := range c14Vars {
-			v, ok := got[path+"."+vname]
-			if !ok {
-				continue
-			}
-			vals, open := p.allowed(mod, vname, 3)
-			// when a from-import bound a stack residue (known finding) an alias may denote another
-			// module than the one it names, and stores through it land there
-			finding := ""
-			if agree && mMisbinds != "0" {
-				finding = c14FindStack
-			}
-			if !strings.HasPrefix(v, "i") {
-				if !open && len(vals) > 0 {
-					e.R.Spec(text, fmt.Sprintf("%s.%s holds %s although only integers were stored into that variable", path, vname, v), finding)
+				if !strings.HasPrefix(v, "i") {
+					if !open && len(vals) > 0 {
+						bad(fmt.Sprintf("%s.%s holds %s although only integers were stored into that variable", path, vname, v), finding)
+					}
+					continue
 				}
-				continue
-			}
-			n, _ := strconv.Atoi(v[1:])
-			if !vals[n] && !open {
-				e.R.Spec(text, fmt.Sprintf("%s.%s holds %d, a value that was stored into a different script's or module's variable", path, vname, n), finding)
+				n, _ := strconv.Atoi(v[1:])
+				if !vals[n] && !open {
+					bad(fmt.Sprintf("%s.%s holds %d, a value that was stored into a different script's or module's variable", path, vname, n), finding)
+				}
 			}
 		}
+		check("main", "", p.Main, 4)
 	}
-	check("main", "", p.Main, 4)
+	spec(goFS, "FSImporter")
+	if alsoLocal {
+		spec(goL, "LocalImporter")
+	}
 }
 
 // directed programs: the witnesses of the findings and the plain cases of the property
@@ -1691,9 +2315,30 @@ func c14DirectedProgs() []c14Prog {
 	}
 	pre := []c14Stmt{set("x", 9001), set("y", 9002)}
 	mk := func(files []c14File, main ...c14Stmt) c14Prog {
-		return c14Prog{Files: files, Main: append(append([]c14Stmt{}, pre...), main...)}
+		return c14Prog{Files: files, Main: append(append([]c14Stmt{}, pre...), main...), Kind: "directed"}
 	}
+	// copies of one template: byte-identical source under different module paths
+	twin := func(label, name string, k int, extra ...c14Stmt) c14File {
+		return c14File{Name: name, Ext: ".risor", Twin: label, Body: append([]c14Stmt{set("x", k), set("y", k+1), set(c14Counter, 0), {Kind: "newlist", Var: c14List}}, extra...)}
+	}
+	via := func(al, v string, n int) c14Stmt { return c14Stmt{Kind: "via", Alias: al, Var: v, Val: n} }
+	add := func(al string, n int) c14Stmt { return c14Stmt{Kind: "add", Alias: al, Var: c14Counter, Val: n} }
+	push := func(al string, n int) c14Stmt { return c14Stmt{Kind: "push", Alias: al, Var: c14List, Val: n} }
+	helper := c14File{Name: "h", Ext: ".risor", Body: []c14Stmt{set("x", 700), set("y", 701), set(c14Counter, 10), {Kind: "newlist", Var: c14List}}}
 	return []c14Prog{
+		// identical source: east/counter and west/counter — counters bumped between and after the imports
+		mk([]c14File{twin("T1", "e/c", 100), twin("T1", "w/c", 100)}, imp("e/c", "p"), add("p", 3), imp("w/c", "q"), add("q", 4),
+			via("q", "x", 7), imp("e/c", "r"), add("r", 1)),
+		// identical source: lists appended to through each alias
+		mk([]c14File{twin("T1", "e/c", 100), twin("T1", "w/c", 100)}, imp("e/c", "p"), imp("w/c", "q"), push("p", 1), push("q", 2), push("p", 3)),
+		// identical source: x next to pkg/x, reached by import and by from-import
+		mk([]c14File{twin("T1", "a", 100), twin("T1", "d/a", 100)}, imp("a", "a"), via("a", "x", 5), from("d", [2]string{"a", "q"}), add("q", 2), via("q", "y", 8)),
+		// three copies that all use one ordinary helper module
+		mk([]c14File{helper, twin("T1", "c", 300, imp("h", "h"), add("h", 1)), twin("T1", "d/c", 300, imp("h", "h"), add("h", 1)), twin("T1", "e/c", 300, imp("h", "h"), add("h", 1))},
+			imp("c", "p"), imp("d/c", "q"), via("p", "x", 11), imp("e/c", "r"), add("q", 5), add("r", 6), imp("h", "h")),
+		// both copies imported before any state changes, and a copy under the other extension
+		mk([]c14File{twin("T1", "b", 500), {Name: "w/b", Ext: ".rsr", Twin: "T1", Body: []c14Stmt{set("x", 500), set("y", 501), set(c14Counter, 0), {Kind: "newlist", Var: c14List}}}},
+			imp("b", "b"), imp("w/b", "q"), add("b", 2), add("q", 9), via("b", "x", 12)),
 		// repeated imports under aliases + stores through the module and in the script
 		mk([]c14File{leaf("a", 100)}, imp("a", "a"), imp("a", "p"), from("a", [2]string{"x", "q"}),
 			c14Stmt{Kind: "via", Alias: "p", Var: "x", Val: 5}, set("x", 6)),
@@ -1726,8 +2371,13 @@ func c14_runC14(e *Env) {
 	e.R.Rule = "stream spell: each of 15 import spellings (identifier, quoted, aliased, from dotted/raw/quoted, grouped, item and alias position, " +
 		"single-quoted, backtick) x path texts (directed list + seeded random '/'-joined segments over an alphabet with .., empty, '.', quotes, " +
 		"NUL, backslash, non-ASCII letters and digits, keywords), distinct by (spelling, source text), non-trivial unless the text is the plain existing module a, b or d; " +
-		"stream graph: seeded random module trees over the names {a,b,c,d,d/a,d/b,e,d/e} sharing the variables x,y (every store writes a unique integer), " +
-		"with import/from-import (dotted, quoted, grouped, aliased), stores through module functions, try-imports, spawned imports, failing and cyclic modules; " +
+		"stream graph: seeded random module trees over the names {a,b,c,d,d/a,d/b,e,d/e} sharing the variables x,y, the counter n and the list l (every store writes a unique integer), " +
+		"with import/from-import (dotted, quoted, grouped, aliased), stores, counter bumps and list appends through module functions, try-imports, spawned imports, failing and cyclic modules " +
+		"(12% of them with one module a byte-identical copy of another); every fourth program is a twin tree: 2-3 module paths per template (1-2 templates, copies in different " +
+		"directories and/or under different last names, optionally importing an ordinary helper module) with byte-identical source, all imported by the script under their own aliases " +
+		"(import/from-import, quoted or not), stores, counter bumps and list appends through the aliases between and after the imports, re-imports under further aliases; " +
+		"each program runs with the FSImporter, every twin tree and every fourth other program also with the LocalImporter on a temp tree, and the Spec (incl. the reference semantics " +
+		"\"every module path has its own variables\" on the plain fragment) is evaluated on both; the importers alone are given seeded sequences of names (pointer identity of the code objects); " +
 		"distinct by the full source text of script and modules, non-trivial when the script has >= 2 import statements or some module imports another"
 	c14Spell1(e)
 	c14Graph(e)
